@@ -29,6 +29,8 @@ type z =
 | Zpos of positive
 | Zneg of positive
 
+val eqb : bool -> bool -> bool
+
 module Pos :
  sig
   val succ : positive -> positive
@@ -80,21 +82,22 @@ val find : ('a1 -> 'a1 -> bool) -> 'a1 -> ('a1, 'a2) store -> 'a2 option
 
 val step :
   ('a2 -> 'a1 -> value) -> (n list -> 'a3) -> ('a3 -> 'a3 -> bool) -> ('a2 ->
-  'a4) -> ('a2 -> bool) -> 'a1 list -> ('a3, 'a4) store -> 'a2 -> ('a3, 'a4)
-  store * (how * 'a4)
+  'a4) -> ('a4 -> bool) -> ('a2 -> bool) -> 'a1 list -> ('a3, 'a4) store ->
+  'a2 -> ('a3, 'a4) store * (how * 'a4)
 
 val exec :
   ('a2 -> 'a1 -> value) -> (n list -> 'a3) -> ('a3 -> 'a3 -> bool) -> ('a2 ->
-  'a4) -> ('a2 -> bool) -> 'a1 list -> ('a3, 'a4) store -> 'a2 list -> ('a3,
-  'a4) store * (how * 'a4) list
+  'a4) -> ('a4 -> bool) -> ('a2 -> bool) -> 'a1 list -> ('a3, 'a4) store ->
+  'a2 list -> ('a3, 'a4) store * (how * 'a4) list
 
 val run :
   ('a2 -> 'a1 -> value) -> (n list -> 'a3) -> ('a3 -> 'a3 -> bool) -> ('a2 ->
-  'a4) -> ('a2 -> bool) -> 'a1 list -> 'a2 list -> (how * 'a4) list
+  'a4) -> ('a4 -> bool) -> ('a2 -> bool) -> 'a1 list -> 'a2 list ->
+  (how * 'a4) list
 
 val list_eqb : n list -> n list -> bool
 
-type creq = bool * n list
+type creq = (bool * bool) * n list
 
 val cget : creq -> n -> value
 
